@@ -5,6 +5,7 @@ import (
 	"go.pennock.tech/tabular"
 	"go.pennock.tech/tabular/properties"
 	"go.pennock.tech/tabular/properties/align"
+	"strings"
 )
 
 // Row-building modes: every public route by which a row can join a table.
@@ -589,6 +590,9 @@ func (r *R) Table(o TableOpts) TableSpec {
 			s.Rows = append(s.Rows, RowSpec{Items: []ItemSpec{it}})
 		}
 	}
+	if r.Chance(1, 5) {
+		r.echo(&s)
+	}
 	if !o.NoScale && r.Chance(1, 25) {
 		// plant a pair of twins into two cells of the table (header cells included)
 		var slots []*ItemSpec
@@ -628,6 +632,98 @@ func (r *R) Table(o TableOpts) TableSpec {
 		}
 	}
 	return s
+}
+
+// longTexts are values of the kind real tables repeat down a column: longer than any small-string threshold.
+var longTexts = []string{
+	"connection refused", "3f2a9c1d7e4b5a6f8091a2b3c4d5e6f708192a3b", "1600 Pennsylvania Avenue NW, Washington, DC 20500",
+	"/usr/local/share/doc/tabular/README.md", "2026-10-04T02:15:46.123456789Z", "the quick brown fox jumps over the lazy dog",
+	"xxxxxxxxxxxxxxxxxxxxxxxxxxxxxxxxxxxxxxxxxxxxxxxxxxxxxxxxxxxxxxxx", "\u4e16\u754c\u4e16\u754c\u4e16\u754c\u4e16\u754c\u4e16\u754c\u4e16\u754c",
+	"He said \"hello, world\" | and left <b>&amp;</b> behind", "not available (see the note below the table)",
+}
+
+// echo makes cells of one table RELATED: the value of one cell turns up again in others - most often further down
+// the same column, the way a status, an address or a commit id repeats in real tables - as the very same item, as
+// an equal text held by a plain string, or (where the value declares a display width) as the same text declaring
+// another width.  Half of the time the value is first made a long one.  Independent draws practically never
+// repeat anything longer than a couple of bytes; whatever a renderer remembers about one cell must hold for
+// that cell only.
+func (r *R) echo(s *TableSpec) {
+	type slot struct {
+		it  *ItemSpec
+		col int
+	}
+	var slots []slot
+	for j := range s.Header {
+		slots = append(slots, slot{&s.Header[j], j})
+	}
+	for i := range s.Rows {
+		for j := range s.Rows[i].Items {
+			slots = append(slots, slot{&s.Rows[i].Items[j], j})
+		}
+	}
+	if len(slots) < 2 {
+		return
+	}
+	declares := false
+	for _, sl := range slots {
+		if _, ok := sl.it.DeclW(); ok {
+			declares = true
+		}
+	}
+	a := slots[r.Intn(len(slots))]
+	if r.Bool() {
+		long := Pick(r, longTexts)
+		switch {
+		case a.it.K == "str":
+			if r.Chance(1, 3) {
+				long = string(a.it.Str) + " " + long // keeps whatever hostile characters the cell had
+			}
+			*a.it = StrItem(long)
+		case a.it.K == "typed" && a.it.F != nil && !strings.Contains(a.it.F.S, "\n"):
+			f := *a.it.F
+			f.S, f.G, f.E = long, long, long
+			a.it.F = &f
+		}
+	}
+	for n := r.Range(1, 4); n > 0; n-- {
+		var cand []slot
+		for _, sl := range slots {
+			if sl.it != a.it && (sl.col == a.col) {
+				cand = append(cand, sl)
+			}
+		}
+		if len(cand) == 0 || r.Chance(1, 3) {
+			cand = cand[:0]
+			for _, sl := range slots {
+				if sl.it != a.it {
+					cand = append(cand, sl)
+				}
+			}
+		}
+		b := cand[r.Intn(len(cand))]
+		cp := *a.it
+		if cp.F != nil {
+			f := *cp.F
+			cp.F = &f
+		}
+		switch r.Intn(4) {
+		case 0:
+			// an equal text held by a plain string
+			cp = StrItem(a.it.Text())
+		case 1:
+			// the same text, declaring another width (or declaring one where the original declares none)
+			if cp.K == "typed" && cp.F != nil {
+				if _, ok := cp.DeclW(); ok {
+					cp.F.WV = r.DeclSize()
+				}
+			} else if declares && cp.K == "str" && !strings.Contains(string(cp.Str), "\n") {
+				t := string(cp.Str)
+				cp = TypedItem("VS_W", Fields{S: t, G: t, E: t, WV: r.DeclSize()}, false)
+			}
+		}
+		*b.it = cp
+	}
 }
 
 // noise draws 1-3 properties that belong to another renderer, or to nobody.
